@@ -208,8 +208,11 @@ class BitfieldEngine(object):
         if mode in (2, 3):
             dstart = t.draw(L) if t.draw(8) else [L, L + 3, -1, -4][t.draw(4)]
         tags = None
-        tk = t.draw(4)
-        if tk == 1:
+        tk = t.draw(6)
+        if tk >= 4:
+            # a set object the caller re-uses for several fields
+            tags = self.shared_tags[tk - 4]
+        elif tk == 1:
             tags = TAGS[t.draw(3)]
         elif tk == 2:
             tags = [TAGS[t.draw(3)], TAGS[t.draw(3)]]
@@ -246,8 +249,10 @@ class BitfieldEngine(object):
                 if hi > fs and fs + fl > lo:
                     overlap = f
                     reason = "overlap"
-        label = "%s.add_field(%r, length=%r, start_at=%r, tags=%r)" % (
-            v.name, ident, dlen, dstart, tags)
+        label = "%s.add_field(%r, length=%r, start_at=%r, tags=%s)" % (
+            v.name, ident, dlen, dstart,
+            ("shared set %r" % sorted(tags)) if isinstance(tags, set)
+            else repr(tags))
         w.trace.ev("op", "add_field")
         w.ops.append(label)
         self.cur_scope = self.scope_kind(v.fv)
@@ -258,6 +263,11 @@ class BitfieldEngine(object):
         w.ops[-1] += " -> " + st
         if st == "other":
             return
+        if self.shared_tags != [set(["routing"]), set(["filter", "t3"])]:
+            w.violate("TAG", "add_field modified the set object the caller "
+                      "passed as tags= (now %r)" % (
+                          [sorted(x) for x in self.shared_tags],),
+                      kind="tags-argument-mutated")
         if reason in ("zero-length", "overflow", "duplicate", "overlap"):
             if reason == "overlap":
                 w.probe("explicit_overlap_rejected")
@@ -605,6 +615,7 @@ class BitfieldEngine(object):
         self.views = [root]
         self.keys = []
         self.ended = False
+        self.shared_tags = [set(["routing"]), set(["filter", "t3"])]
         w.ops.append("bf = BitField(%d)" % self.length)
         n_ops = t.op_count(1, 30)
         try:
